@@ -178,7 +178,14 @@ def gen_acyclic(rng: random.Random, max_top: int = 9) -> list[Item]:
 
 
 SHAPES = ["direct-first", "after-other-call", "in-watch", "in-alarm", "in-block", "indirect", "indirect-after-call",
-          "indirect-in-watch", "foreign-cycle"]
+          "indirect-in-watch", "foreign-cycle",
+          # a container (whose own lines do not close the cycle) BEFORE the call that does
+          "after-block", "after-watch", "after-alarm", "indirect-after-block", "indirect-after-watch",
+          "indirect-after-alarm", "after-nested-containers"]
+
+
+def _container(kind: str, body: list) -> tuple:
+    return ("block", "K", body) if kind == "block" else (kind, "T0 >= 0", body)
 
 
 def gen_recursive(rng: random.Random, shape: str | None = None) -> tuple[list[Item], str]:
@@ -208,6 +215,15 @@ def gen_recursive(rng: random.Random, shape: str | None = None) -> tuple[list[It
     elif shape == "indirect-in-watch":
         defs = [("macro", "A", [mk(), ("call", "B")]),
                 ("macro", "B", [mk(), ("watch", "T0 >= 0", [("call", "A")])])]
+    elif shape in ("after-block", "after-watch", "after-alarm"):
+        defs = [("macro", "A", [mk(), _container(shape[6:], [mk()]), ("call", "A")])]
+    elif shape in ("indirect-after-block", "indirect-after-watch", "indirect-after-alarm"):
+        k = shape[len("indirect-after-"):]
+        defs = [helper, ("macro", "A", [mk(), _container(k, [mk(), ("call", "H")]), ("call", "B")]),
+                ("macro", "B", [_container(k, [mk()]), mk(), ("call", "A")])]
+    elif shape == "after-nested-containers":
+        defs = [("macro", "A", [mk(), ("watch", "T0 >= 0", [mk(), ("block", "K", [mk()]), mk()]),
+                                ("alarm", "T1 >= 0", [mk()]), mk(), ("call", "A")])]
     elif shape == "foreign-cycle":
         # A does not call itself; B and C call each other: the call of A runs, the call of B inside it is refused
         defs = [("macro", "B", [mk(), ("call", "C")]), ("macro", "C", [mk(), ("call", "B")]),
